@@ -569,6 +569,8 @@ class CallMixin:
     def apply_contract(self, c, self_v, args, kwargs, st, node):
         if c.trusted:
             self.trusted_used.add(c.key)
+        else:
+            self.applied.add(c.key)
         for ck, hook in getattr(self, "at_call_hooks", []):
             if ck == c.key:
                 hook(self, None, st, node)
